@@ -152,6 +152,15 @@ def memS (st : St) (s : ObjId) (l : List ObjId) : Bool := l.any (fun x => surfEq
 /-- `m in materials_collection` -/
 def memM (st : St) (m : ObjId) (l : List ObjId) : Bool := l.any (fun x => matEq st m x)
 
+/-- cell.py:Cell.link_to_problem: the cell, its two containers, and (repaired code) what the cell already
+    points at — the surfaces it holds, its material, its universe — are linked to the problem -/
+def St.linkCell (st : St) (o : ObjId) : St :=
+  let cs := st.cellOf o
+  { st.updCell o (fun cs => { cs with link := true, contLinked := true }) with
+    slink := fun x => if cs.surfs.contains x then true else st.slink x,
+    mlink := fun x => if cs.mat == some x then true else st.mlink x,
+    ulink := fun x => if cs.univ == some x then true else st.ulink x }
+
 /-- numbered_object_collection.py:append on `cell.surfaces` (links the surface when the container is linked) -/
 def cellSurfAppend (st : St) (c s : ObjId) : Res :=
   let cs := st.cellOf c
@@ -166,7 +175,7 @@ def cellCompAppend (st : St) (c d : ObjId) : Res :=
   if cs.comps.any (fun x => st.cnum x == st.cnum d) then (st, some .numberConflict)
   else
     let st1 := st.updCell c (fun cs => { cs with comps := cs.comps ++ [d] })
-    (if cs.contLinked then st1.updCell d (fun ds => { ds with link := true, contLinked := true }) else st1, none)
+    (if cs.contLinked then st1.linkCell d else st1, none)
 
 /-- the loop of half_space.py:_add_new_children_to_cell over the surfaces -/
 def addSurfs (c : ObjId) : List ObjId → St → Res
@@ -347,13 +356,16 @@ def setChild (st : St) (c : ObjId) (path : List Bool) (right : Bool) (new : HS) 
         | ((st1, some e), _) => (st1, some e)
     | _ => (st, some .attributeError)
 
-/-- cell.py:material (make_prop_pointer, `None` allowed) -/
+/-- cell.py:material (make_prop_pointer, `None` allowed; validator cell.py:_link_pointee_to_problem: a cell
+    that is linked to the problem links the material) -/
 def setMaterial (st : St) (c : ObjId) (m : Option ObjId) : Res :=
-  (st.updCell c (fun cs => { cs with mat := m }), none)
+  ({ st.updCell c (fun cs => { cs with mat := m }) with
+      mlink := fun x => if (st.cellOf c).link && m == some x then true else st.mlink x }, none)
 
-/-- cell.py:universe.setter -/
+/-- cell.py:universe.setter (a cell that is linked to the problem links the universe) -/
 def setUniverse (st : St) (c : ObjId) (u : ObjId) : Res :=
-  (st.updCell c (fun cs => { cs with univ := some u }), none)
+  ({ st.updCell c (fun cs => { cs with univ := some u }) with
+      ulink := fun x => if (st.cellOf c).link && u == x then true else st.ulink x }, none)
 
 /-- universe.py:Universe.claim with a list of cells (`Cells(list)` raises on a repeated number) -/
 def claim (st : St) (u : ObjId) (cs : List ObjId) : Res :=
@@ -394,7 +406,7 @@ def St.setNum (st : St) (k : Kind) (o : ObjId) (n : Int) : St :=
 /-- mcnp_object.py:link_to_problem; for a cell cell.py:Cell.link_to_problem (its containers too) -/
 def St.setLinked (st : St) (k : Kind) (o : ObjId) : St :=
   match k with
-  | .cell => st.updCell o (fun cs => { cs with link := true, contLinked := true })
+  | .cell => st.linkCell o
   | .surface => { st with slink := upd st.slink o true } | .material => { st with mlink := upd st.mlink o true }
   | .universe => { st with ulink := upd st.ulink o true } | .transform => { st with tlink := upd st.tlink o true }
 
